@@ -102,7 +102,8 @@ def cases(tier, cfg):
     if base:
         for n in (range(1, 13) if (main or tier == "thorough") else (1, 5, 12)):
             for t in (("f32", "f64") if (tier == "thorough" or n in (1, 4, 9, 12)) else ("f32",)):
-                out.append(Case(f"C16/predicates[{t}|N={n}]", f"c16::pred<{n},{CTYPE[t]}>(fx);", route="predicates", cost=0.4))
+                out.append(Case(f"C16/predicates[{t}|N={n}|fn=all_of,any_of]", f"c16::pred<{n},{CTYPE[t]}>(fx,0);", route="predicates.all_any", cost=0.4))
+                out.append(Case(f"C16/predicates[{t}|N={n}|fn=none_of]", f"c16::pred<{n},{CTYPE[t]}>(fx,1);", route="predicates.none_of", cost=0.4))
     return out
 
 
